@@ -290,13 +290,15 @@ def interLoop {σ : Type} (cb : σ → Nat → α → σ × α) (gmax : α) :
       -- phase 1: all skip readers on the block containing `doc`
       let l1 := l.seekBlock doc
       let secs1 := secs.map (·.seekBlock doc)
-      if secs1.any (fun x => !x.hasRemaining) then .ok (s, θ)
+      -- (not in the Rust code: the block bounds below are those of the block containing `doc` only
+      --  if no skip reader is ahead of it; never observed otherwise)
+      if !(l1.skip == l1.blockIdx doc && secs1.all (fun x => x.skip == x.blockIdx doc)) then .skipAhead
+      else if secs1.any (fun x => !x.hasRemaining) then .ok (s, θ)
       else
         let wEnd := secs1.foldl (fun w x => min w x.lastDocInBlock) l1.lastDocInBlock
         let bms := secs1.map TS.blockMax
         let sumB := bms.foldl add zero
-        if !(l1.skip == l1.blockIdx doc && secs1.all (fun x => x.skip == x.blockIdx doc)) then .skipAhead
-        else if !gt (add l1.blockMax sumB) θ then interLoop cb gmax fuel (s, θ) l1 secs1 (wEnd + 1)
+        if !gt (add l1.blockMax sumB) θ then interLoop cb gmax fuel (s, θ) l1 secs1 (wEnd + 1)
         else
           -- phase 2: the leader's documents of the window, filtered by `score > threshold - Σ block maxima`
           let l2 := l1.loadBlock
